@@ -87,3 +87,17 @@ def all_programs():
     d["corpus/violating"] = VIOLATING
     d["corpus/loops"] = LOOPS
     return d
+
+# hand-written programs aimed at individual rules of the value analysis (C01)
+VALUE_PROGRAMS = [
+    "main:\n    addi sp, sp, -8\n    sw a0, 0(sp)\n    li a0, 10\n    lw a7, 0(sp)\n    addi sp, sp, 8\n    li a7, 10\n    ecall\n",
+    "main:\n    li a0, 7\n    li a7, 5\n    ecall\n    mv a1, a0\n    li a7, 10\n    ecall\n",
+    "main:\n    li t0, 5\n    sub t1, t0, sp\n    div t2, zero, zero\n    divu t3, zero, zero\n    rem t4, zero, zero\n    li a7, 10\n    ecall\n",
+    "main:\n    addi sp, sp, -16\n    sw s0, 0(sp)\n    sb t0, 0(sp)\n    lw s0, 0(sp)\n    addi sp, sp, 16\n    li a7, 10\n    ecall\n",
+    "main:\n    addi sp, sp, -16\n    li t0, 3\n    sw t0, 4(sp)\n    lb t1, 4(sp)\n    lw t2, 4(sp)\n    addi sp, sp, 16\n    li a7, 10\n    ecall\n",
+    "main:\n    li t0, 1\n    beqz a0, other\n    li t0, 2\n    j join\nother:\n    li t0, 1\njoin:\n    mv a0, t0\n    li a7, 10\n    ecall\n",
+    "main:\n    li s0, 4\nloop:\n    addi s0, s0, -1\n    bnez s0, loop\n    mv a0, s0\n    li a7, 10\n    ecall\n",
+    "main:\n    addi sp, sp, -8\n    sw ra, 4(sp)\n    li a0, 3\n    call twice\n    lw ra, 4(sp)\n    addi sp, sp, 8\n    li a7, 10\n    ecall\ntwice:\n    addi sp, sp, -8\n    sw s1, 0(sp)\n    mv s1, a0\n    add a0, s1, s1\n    lw s1, 0(sp)\n    addi sp, sp, 8\n    ret\n",
+    "main:\n    la t0, handler\n    csrrw zero, 5, t0\n    li a7, 10\n    ecall\nhandler:\n    csrrw t0, 64, t0\n    addi t0, t0, 1\n    csrrw t0, 64, t0\n    uret\n",
+    "main:\n    lui t0, 0x80000\n    addi t0, t0, -1\n    slli t1, t0, 1\n    srai t2, t1, 31\n    mulh t3, t0, t0\n    li a7, 10\n    ecall\n",
+]
